@@ -49,7 +49,7 @@ def validate(run, module, events, name=None, timeout=900, cfg=CFG, env=None, dfs
     return mism
 
 
-def validate_sharded(run, module, events, is_header, name=None, max_events=25000, jobs=8, timeout=3000, cfg=CFG, env=None, heap="4g"):
+def validate_sharded(run, module, events, is_header, name=None, max_events=25000, jobs=8, timeout=3000, cfg=CFG, env=None, heap="4g", cost=None):
     """Same verdicts as validate(), computed by several TLC processes in parallel.
 
     The trace is cut at header events (is_header(e): an event that (re)establishes all state the following events depend on);
@@ -60,26 +60,33 @@ def validate_sharded(run, module, events, is_header, name=None, max_events=25000
     from concurrent.futures import ThreadPoolExecutor
     if not events:
         return []
-    pieces, cur, hdr = [], [], None          # piece = list of global indices (0-based)
+    if os.environ.get("KV_DUMP_TRACE"):          # debugging aid: keep the recorded trace
+        with open(os.path.join(os.environ["KV_DUMP_TRACE"], (name or module).replace(" ", "_") + ".ndjson"), "w") as f:
+            for e in events:
+                f.write(json.dumps(e, separators=(",", ":")) + "\n")
+    cost = cost or (lambda e: 1)             # relative evaluation cost of an event; max_events bounds the cost of a piece
+    pieces, cur, hdr, w = [], [], None, 0    # piece = (list of global indices (0-based), cost)
     for i, e in enumerate(events):
         if is_header(e):
             if cur:
-                pieces.append(cur)
-            cur, hdr = [i], i
+                pieces.append((cur, w))
+            cur, hdr, w = [i], i, cost(e)
         else:
-            if len(cur) >= max_events:
-                pieces.append(cur)
-                cur = [hdr] if hdr is not None else []
+            if w >= max_events:
+                pieces.append((cur, w))
+                cur, w = ([hdr], cost(events[hdr])) if hdr is not None else ([], 0)
             cur.append(i)
+            w += cost(e)
     if cur:
-        pieces.append(cur)
+        pieces.append((cur, w))
     # pack small pieces together (fewer JVM starts), keeping order
-    packed, acc = [], []
-    for pc in pieces:
-        if acc and len(acc) + len(pc) > max_events:
+    packed, acc, aw = [], [], 0
+    for pc, pw in pieces:
+        if acc and aw + pw > max_events:
             packed.append(acc)
-            acc = []
+            acc, aw = [], 0
         acc = acc + pc
+        aw += pw
     if acc:
         packed.append(acc)
 
